@@ -3304,9 +3304,9 @@ theorem rk4Evals_xNew (c : Cfg α) (s : St α) (dt : α) (a2 a3 a4 : EvalAns α)
 nucleation rate of the FOURTH evaluation (the one whose terms `_updateX` uses), under the hypothesis that the processed stage-3
 vector is non-negative.  What is missing for the full statement: the intermediate Runge-Kutta vectors are `X0 + limited flux of
 stage k × step` with the limiter referring to the STORED distribution, not to the vector the fluxes were computed from, so their
-non-negativity is not a consequence of the limiter (it is for the Euler step, `advanceStage_nonneg`).  The check run does not record
-the intermediate vectors, so the hypothesis is not evaluated there; the accepted state of every Runge-Kutta step is compared with
-the model's by the refinement run. -/
+non-negativity is not a consequence of the limiter (it is for the Euler step, `advanceStage_nonneg`).  The check run records the
+processed vector and the nucleation rates of every evaluation of a Runge-Kutta step and evaluates hypothesis and conclusion on the
+implementation's own numbers (oracle `budget`: counts `composed:rk4-budget-evaluated` / `…-hypothesis-not-met`). -/
 theorem rk4Step_density_budget_partial (c : Cfg α) (s : St α) (tf dtminS dtmaxS : α) (a2 a3 a4 aPost : EvalAns α)
     (upd : List (UpdAns α)) (o : StepOut α) (h : rk4Step c s tf dtminS dtmaxS a2 a3 a4 aPost upd = some o)
     (hs : StReady c s) (h2 : AnsShaped c s.ph.length a2) (h3 : AnsShaped c s.ph.length a3)
